@@ -203,7 +203,7 @@ def merge_evidence(a, b):
     return out
 
 
-def make_recorder(*, module, mcmodule, pkg, name, consts, overrides, harness, reset_op, tiers, walks=6, walklen=60, procs=8):
+def make_recorder(*, module, mcmodule, pkg, name, consts, overrides, harness, reset_op, tiers, walks=6, walklen=60, procs=8, test="TestRecord"):
     """Recorder: seeded random drivers on the real code with constants beyond the model-checking bounds;
     every recorded behaviour is validated by TLC against the specification's own next-state relation
     (<module>Trace.tla, strict) and handed to the property evaluation."""
@@ -221,7 +221,7 @@ def make_recorder(*, module, mcmodule, pkg, name, consts, overrides, harness, re
             tf = work.path("rec-%s-%d.ndjson" % (name, i))
             env = dict(VERIF_EDGES=edges, VERIF_CONST=json.dumps(harness), VERIF_TRACES=tf, VERIF_WALKS=walks, VERIF_WALKLEN=walklen, VERIF_SHARD=i)
             held = vlib.acquire_slots(1)
-            ps.append((tf, vlib.run_harness(work, binary, "TestRecord", env, work.path("rec-%s-%d.log" % (name, i))), held, i))
+            ps.append((tf, vlib.run_harness(work, binary, test, env, work.path("rec-%s-%d.log" % (name, i))), held, i))
         tfs = []
         for tf, p, held, i in ps:
             rc = p.wait()
